@@ -660,7 +660,43 @@ def _nat_stub(params, model):
     return {"ok": None, "detail": "no concrete replay registered"}
 
 
+# ---------------------------------------------------------------------------- completeness of the rely invariant
+def sym_inv_reach(nsubs, cap, lazy, numbering="default", nreal=3, order=None):
+    """Soundness guard for every 'from any invariant state' obligation above: each state that real sender / reader
+    threads reach (all schedules of a small run, stateful DFS) must be one of the states Sim.havoc ranges over.  A
+    state outside means the rely invariant is too STRONG (a reachable region would silently be left unexamined)."""
+    drivers = [True] + [False] * (nsubs - 1) if lazy else [True] * nsubs
+    states, runs = mbox.enumerate_states(nsubs, lazy, cap, drivers, nreal, order=order)
+    missing = []
+    for st in states:
+        if not mbox.covered_by_invariant(st, nsubs, lazy, cap, drivers, numbering):
+            missing.append(st)
+    prove(len(states) >= 3, "inv_reach:enumeration found almost no states (vacuous)")
+    prove(not missing, f"inv_reach:{len(missing)} of {len(states)} reachable states are excluded by the invariant, e.g. "
+                       f"{missing[:2]}")
+    return [len(states), runs]
+
+
+def nat_inv_reach(params, model):
+    # a failure here is a defect of the verification machinery (over-constrained rely), never of strax
+    return {"ok": None, "detail": "reachable state outside the rely invariant: the invariant must be weakened"}
+
+
+def _g_inv(tier):
+    g = []
+    for nsubs in (1, 2):
+        for cap in ((1, 2) if tier == "quick" else (1, 2, 3)):
+            g.append(dict(nsubs=nsubs, cap=cap, lazy=False, nreal=3 if tier == "quick" else 4))
+        g.append(dict(nsubs=nsubs, cap=None, lazy=True, nreal=3 if tier == "quick" else 4))
+    for cap, order in ((2, [1, 0, 2]), (3, [2, 0, 1, 3]), (3, [1, 2, 0, 3]), (4, [3, 0, 1, 2])):
+        for nsubs in (1, 2):
+            g.append(dict(nsubs=nsubs, cap=cap, lazy=False, numbering="explicit", order=order))
+    return g
+
+
 OBLIGATIONS = [
+    Ob("inv_reach", sym_inv_reach, _g_inv, nat_inv_reach, setup=mbox.setup, witnesses=0,
+       doc="every state reached by real threads (all schedules, small runs) satisfies the rely invariant"),
     Ob("send", sym_send, _g_send, mbox.nat_rg(sym_send), setup=mbox.setup, witnesses=1,
        doc="send from any invariant state (incl. block on full queue + stale number): pushes exactly (n,msg), "
            "n_sent+1, notifies readers, invariant kept, eager capacity respected, closed refuses"),
